@@ -21,6 +21,11 @@ from .probability import InvalidParameterException
 from .config import ConfigProperties
 import ka.config
 
+# Integers are arbitrary-precision; don't let CPython's int<->str digit
+# limit (3.11+) turn a big literal or result into a ValueError.
+if hasattr(sys, "set_int_max_str_digits"):
+    sys.set_int_max_str_digits(0)
+
 INTERPRETER_COMMAND_PREFIX = "%"
 KA_VERSION = "1.2"
 
